@@ -29,6 +29,7 @@ pub const SETUP_CQSIZE: u32 = 8;
 pub const SETUP_CLAMP: u32 = 16;
 pub const SETUP_R_DISABLED: u32 = 64;
 pub const SETUP_SINGLE_ISSUER: u32 = 4096;
+pub const SETUP_NO_SQARRAY: u32 = 1 << 16;
 
 pub const ENTER_GETEVENTS: u32 = 1;
 pub const ENTER_EXT_ARG: u32 = 8;
@@ -619,7 +620,22 @@ impl Kernel {
                 return n;
             }
             let head = ring.sq_head();
-            let sqe = ring.read_sqe(head);
+            // Without IORING_SETUP_NO_SQARRAY the kernel finds the entry through the
+            // index array of the submission ring (which the application must fill).
+            let slot = if ring.setup_flags & SETUP_NO_SQARRAY != 0 {
+                head
+            } else {
+                ring.word(ring.sq_ring, 64 + (head & (ring.sq_entries - 1)) as usize * 4).load(Ordering::SeqCst)
+            };
+            let sqe = if slot >= ring.sq_entries && ring.setup_flags & SETUP_NO_SQARRAY == 0 {
+                // Out of range index: the kernel drops the entry.
+                ring.word(ring.sq_ring, 0).store(head.wrapping_add(1), Ordering::SeqCst);
+                ring.word(ring.sq_ring, 20).fetch_add(1, Ordering::SeqCst);
+                n += 1;
+                continue;
+            } else {
+                ring.read_sqe(slot)
+            };
             ring.word(ring.sq_ring, 0).store(head.wrapping_add(1), Ordering::SeqCst);
             ring.consumed += 1;
             n += 1;
